@@ -24,7 +24,7 @@ import (
 type DetCase struct {
 	Lock     LockCase `json:"lock"`
 	Replicas int      `json:"replicas"` // 1..2 extra replicas
-	Modes    []int    `json:"modes"`    // per block: 0 plain, 1 restart between FinalizeBlock and Commit, 2 GOMAXPROCS 1, 3 GOMAXPROCS 4, 4 restart before the block
+	Modes    []int    `json:"modes"`    // per block: 0 plain, 1 restart between FinalizeBlock and Commit, 2 GOMAXPROCS 1, 3 GOMAXPROCS 4, 4 restart before the block, 5 the replica's engine answers after 1.5 s
 	OnDisk   bool     `json:"on_disk"`  // replica 0 keeps its state in an on-disk goleveldb
 	// Exodus: after the history one more block is executed (not committed) in which every validator, the anchor
 	// included, unlocks everything it holds: all members leave the set at once. Whatever the application answers
@@ -151,7 +151,7 @@ func runDetCase(c DetCase) Outcome {
 	w.hook = func(blk world.Block, txs [][]byte, res *world.StepResult) *Failure {
 		mode := 0
 		if bi < len(c.Modes) {
-			mode = abs(c.Modes[bi]) % 5
+			mode = abs(c.Modes[bi]) % 6
 		}
 		failing := false
 		for _, tr := range res.Resp.TxResults {
@@ -173,6 +173,10 @@ func runDetCase(c DetCase) Outcome {
 				prevProcs = runtime.GOMAXPROCS(1)
 			case 3:
 				prevProcs = runtime.GOMAXPROCS(4)
+			case 5:
+				// this replica's execution node is slow: it answers the end-of-block newPayload after 1.5 s
+				r.node.Eng.ArmFaults([]world.Fault{{Method: "newPayload", Nth: 0, Kind: world.FaultStall}})
+				what += " (slow engine)"
 			case 4:
 				if blk.Height > w.sim.Chain.Initial {
 					n2, err := r.node.Restart()
@@ -185,6 +189,9 @@ func runDetCase(c DetCase) Outcome {
 			}
 			r.node.Eng.TakeLog()
 			resp, err := r.node.Finalize(res.Req)
+			if mode == 5 {
+				r.node.Eng.ArmFaults(nil)
+			}
 			if prevProcs > 0 {
 				runtime.GOMAXPROCS(prevProcs)
 			}
@@ -308,7 +315,7 @@ func genDetCase(t *rapid.T) DetCase {
 	c := DetCase{Lock: genLockCase("C07", 30)(t), Replicas: rapid.IntRange(0, 1).Draw(t, "replicas"), OnDisk: rapid.IntRange(0, 3).Draw(t, "onDisk") == 0, Exodus: rapid.IntRange(0, 2).Draw(t, "exodus") == 0, Future: rapid.IntRange(0, 15).Draw(t, "future") == 0}
 	// more multi-validator lock batches with one failing entry
 	for i := range c.Lock.Blocks {
-		c.Modes = append(c.Modes, rapid.SampledFrom([]int{0, 0, 0, 1, 2, 3, 4}).Draw(t, "mode"))
+		c.Modes = append(c.Modes, rapid.SampledFrom([]int{0, 0, 0, 1, 2, 3, 4, 0, 0, 0, 1, 2, 3, 4, 0, 0, 0, 1, 2, 3, 4, 5}).Draw(t, "mode"))
 		if rapid.IntRange(0, 3).Draw(t, "batch") == 0 {
 			b := &c.Lock.Blocks[i]
 			k := rapid.IntRange(2, 5).Draw(t, "batchN")
@@ -327,7 +334,7 @@ func TestC07_Determinism(t *testing.T) {
 	RunProp(t, Prop[DetCase]{
 		ID: "C07", Name: "determinism", Quick: 400, Thor: 8000,
 		Gen: genDetCase, Run: runDetCase,
-		Rule: "kitchen-sink locking-world histories (all request kinds incl. adversarial ones: unknown validator/token, multi-validator lock batches where one entry fails, dust, several validators leaving, absences, evidence) executed on a primary and 1-2 replicas with separate stores (one optionally on on-disk goleveldb), separate fake execution layers and other node keys; per block a replica either executes plainly, is restarted between FinalizeBlock and Commit and executes the block again, is restarted before the block, or runs under GOMAXPROCS 1 or 4; every execution of the same block must agree on app hash, per-transaction code/codespace/gas wanted/gas used/data, the set of validator updates and the engine call log; non-trivial = the block has a failing transaction, >= 2 validator updates, or a restart/re-execution/GOMAXPROCS point; evaluations count blocks; a third of the histories end with an uncommitted block in which every validator, the anchor included, unlocks everything it holds, so that all members leave the set at once: primary and replicas must give the same answer; one history in sixteen ends with an uncommitted block whose payload timestamp is 2 s ahead of the wall clock, executed by the primary at once and by the replicas 2.5 s later",
+		Rule: "kitchen-sink locking-world histories (all request kinds incl. adversarial ones: unknown validator/token, multi-validator lock batches where one entry fails, dust, several validators leaving, absences, evidence) executed on a primary and 1-2 replicas with separate stores (one optionally on on-disk goleveldb), separate fake execution layers and other node keys; per block a replica either executes plainly, is restarted between FinalizeBlock and Commit and executes the block again, is restarted before the block, or runs under GOMAXPROCS 1 or 4; every execution of the same block must agree on app hash, per-transaction code/codespace/gas wanted/gas used/data, the set of validator updates and the engine call log; non-trivial = the block has a failing transaction, >= 2 validator updates, or a restart/re-execution/GOMAXPROCS point; evaluations count blocks; a third of the histories end with an uncommitted block in which every validator, the anchor included, unlocks everything it holds, so that all members leave the set at once: primary and replicas must give the same answer; one history in sixteen ends with an uncommitted block whose payload timestamp is 2 s ahead of the wall clock, executed by the primary at once and by the replicas 2.5 s later; now and then a replica executes a block with an execution node that answers the end-of-block newPayload only after 1.5 s",
 	})
 }
 
